@@ -408,11 +408,8 @@ M('blist_translate_off_by_one', 'C10', L,
             if rel_idx < len_list:
                 break
             rel_idx -= len_list""")
-M('blist_pop_keeps_empty', 'C10', L,
-  """            ret = lists[list_idx].pop(rel_idx)
-            self._balance_list(list_idx)""",
-  """            ret = lists[list_idx].pop(rel_idx - (list_idx == 3 and rel_idx > 0))
-            self._balance_list(list_idx)""")
+# (blist_pop_keeps_empty removed: it changed BarrelList.pop(i) for i > 0, an operation the queues never apply to their
+#  back end; since the BarrelList sub-check was narrowed to insert/insort/pop(0) - DESIGN.md 9.4 - it no longer violates C10)
 
 # ---------------------------------------------------------------- C20
 M('tc_compaction_ge', 'C20', C,
@@ -459,22 +456,14 @@ M('bytes_rollover_loses_pos', 'C18', IO,
             tmp.write(self.buffer.getvalue())
             tmp.seek(min(pos, 3))""")
 M('string_rollover_truncates', 'C18', IO,
-  """            pos = self.buffer.tell()
-            tmp.write(self.buffer.getvalue())
-            tmp.seek(pos)
+  """            tmp.write(self.buffer.getvalue())
             self.buffer.close()
             self._buffer = tmp
-
-    def tell(self):
-        \"\"\"Return the codepoint position\"\"\"""",
-  """            pos = self.buffer.tell()
-            tmp.write(self.buffer.getvalue()[:40])
-            tmp.seek(pos)
+            # go back by codepoint position""",
+  """            tmp.write(self.buffer.getvalue()[:40])
             self.buffer.close()
             self._buffer = tmp
-
-    def tell(self):
-        \"\"\"Return the codepoint position\"\"\"""")
+            # go back by codepoint position""")
 M('string_readline_tell', 'C18', IO,
   """        ret = self.buffer.readline(length).decode('utf-8')
         self._tell = self.tell() + len(ret)""",
